@@ -11,7 +11,7 @@ EXPLANATION = ('Static rules: Z1 every pipeline builder (each provided Observabl
                'defer/of_fn/start/create are called exactly once on every path of actual_subscribe and are bound FnOnce; Z3 no operator or cold '
                'source value holds shared state (no Rc/Arc/MutRc/MutArc/RefCell/Mutex/Cell field outside its type parameters) and every '
                'per-subscription cell is created inside actual_subscribe or an observer constructor (who-may-create check), so clones '
-               'subscribed any number of times share nothing. Z6 every operator subscribes each of its sources exactly once on every path of actual_subscribe (directly, or by handing it to the one task it schedules): one subscription of the pipeline is one run of every source; Z5 a hand-written Clone of a pipeline type copies every field from the original (a clone that resets part of the configuration subscribes to a different pipeline). Does not decide "same output each time" (value-level; follows from Z3 only '
+               'subscribed any number of times share nothing. Z7 no ObservableExt builder clones its own source (a derived operator that zips two branches of self.clone() runs the source twice per subscription); Z6 every operator subscribes each of its sources exactly once on every path of actual_subscribe (directly, or by handing it to the one task it schedules): one subscription of the pipeline is one run of every source; Z5 a hand-written Clone of a pipeline type copies every field from the original (a clone that resets part of the configuration subscribes to a different pipeline). Does not decide "same output each time" (value-level; follows from Z3 only '
                'for deterministic user closures).')
 TECHNIQUE = 'static analysis: who-may-call / who-may-create rules over MIR event graphs, type-structure rules on operator types, operator-tree check of hand-written Clone impls (custom rustc_private driver)'
 ASSUMPTIONS = ['derive(Clone) of a handle-free struct is a deep copy; user closures are deterministic']
@@ -51,7 +51,30 @@ CONTROLS = ['Z6|<verif_controls::LazySourceOp<S> as Observable>::actual_subscrib
 
 
 def check(cx):
-    return z1(cx) + z2(cx) + z3(cx) + z5(cx) + z6(cx)
+    return z1(cx) + z2(cx) + z3(cx) + z5(cx) + z6(cx) + z7(cx)
+
+
+def z7(cx):
+    """a derived operator uses its source once: no ObservableExt builder clones `self` (e.g. to feed two branches that are zipped
+    together again) — with Z6 every operator subscribes each source it holds once, so a pipeline that contains its source twice runs
+    it twice per subscription (a defer/create closure, a side-effecting iterator) and combines values of different runs"""
+    F = cx.facts
+    res = []
+    if cx.control:
+        return res
+    n = 0
+    for fn in sorted(F.fns.values(), key=lambda f: f['key']):
+        if not fn['path'].startswith('observable::ObservableExt::') or fn['kind'] in ('closure', 'coroutine'):
+            continue
+        n += 1
+        g = cx.graph(fn['key'], inline=False)
+        bad = [x for x in g.nodes if x['kind'] == 'call' and x['name'] == 'std::clone::Clone::clone' and x['args'] and strip(x['args'][0])[0] == 'arg' and strip(x['args'][0])[1] == 1]
+        if bad:
+            res.append(Finding(ID, 'Z7', fn['path'], False,
+                               'the builder clones its source: the pipeline it returns contains the source twice, so one subscription runs the source twice (and combines values of two different runs)',
+                               g.loc(bad[0]), [node_desc(g, bad[0])]))
+    res.append(Finding(ID, 'Z7', 'builders inspected', n >= 90, '%d ObservableExt builders inspected, none clones its source' % n if n >= 90 else 'only %d ObservableExt builders found, expected >= 90' % n))
+    return res
 
 
 def _work(n):
